@@ -2352,7 +2352,8 @@ def zip64_scenarios(tier, rnd):
         # next header offset = 53 + size  (large entry "big")
         scs.append(big_entry("hdroff-%d" % target, target - 53, True))
         # directory offset = target: big (large) only, no following entry: cd_start = 53 + size
-        scs.append(big_entry("cdoff-%d" % target, target - 53, True, then_small=False))
+        if tier == "thorough" or target == T:
+            scs.append(big_entry("cdoff-%d" % target, target - 53, True, then_small=False))
     if tier == "thorough":
         scs.append(big_entry("first-then-big", T + 7, True, extra_first=1000))
     # entry counts at the 16-bit limit
@@ -2364,6 +2365,22 @@ def zip64_scenarios(tier, rnd):
         ops.append({"op": "finish"})
         s = writer_sc("count-%d" % n, ops, select=[1, 2, 65534, 65535, 65536, 65537, -1])
         scs.append(s)
+    # append rounds across the limits (C13): the old entries stay, the new ones follow, the end records are re-emitted
+    for base, more in ([(65535, 2)] if tier == "quick" else [(65534, 1), (65535, 2), (65536, 5), (65535, 0)]):
+        ops = [{"op": "bulk", "count": base, "prefix": "e", "data": "", "dirs_every": 0}, {"op": "finish"}, {"op": "append"},
+               {"op": "bulk", "count": more, "prefix": "appended", "data": "new", "dirs_every": 0}, {"op": "finish"}]
+        scs.append(writer_sc("append-count-%d+%d" % (base, more), ops, select=[1, 65535, 65536, 65537, -1]))
+    if True:
+        head, tail = b"\x33", b"\x44"
+        sz = T + 1
+        ops = [{"op": "start", "name": "big", "large": True, "method": 0}, {"op": "zeros", "n": sz, "head": head.hex(), "tail": tail.hex()},
+               {"op": "start", "name": "second", "large": False, "method": 8}, {"op": "data", "data": "second entry"}, {"op": "finish"}, {"op": "append"},
+               {"op": "start", "name": "appended", "large": False, "method": 0}, {"op": "data", "data": "appended beyond 4 GiB"}, {"op": "finish"}]
+        s = writer_sc("append-after-4g", ops, select=[1, 2, 3])
+        s["expect"]["sizes"] = [{"i": 1, "usize": _big(sz), "crc": zc.crc(sz, head, tail)}]
+        s["read"] = [{"i": 3, "head": 0, "tail": 0, "expect": {"len": _big(21), "head": "", "tail": ""}}]
+        if tier == "thorough":
+            scs.append(s)
     # a foreign producer at real sizes: sparse archive, ZIP64 fields in the layouts the specification allows
     import struct
     def foreign(sc, usize, force, z64end, prefix=0):
